@@ -84,6 +84,11 @@ theorem C15_layout_independent (p : Program) (L₁ L₂ : Layout) (hwf : WFProg 
 
 /-! ### Command names -/
 
+/-- pybtex's arity table (`BstParser.COMMANDS`, regenerated from /repo on every run) is the
+reference table of the ten BibTeX commands: same names, same numbers of argument groups. -/
+theorem C15_commands_table : Gen.bstCommands = commandTable := commands_table
+
+
 /-- Command names are looked up case-insensitively and returned as written: the arity depends on
 the upper-cased name only, and a program whose commands are well-formed up to the letter case of
 their names parses to itself, spelling included. -/
